@@ -156,15 +156,15 @@ Loop(st, s) == IF ~Running(s) THEN s
                        ELSE IF s2.ctl = "break" THEN [s2 EXCEPT !.ctl = ""]
                        ELSE IF s2.ctl = "return" THEN s2
                        ELSE Loop(st, [s2 EXCEPT !.ctl = ""])
+Restrict(s2, s) == IF ~Ok(s2) THEN s2 ELSE [s2 EXCEPT !.env = [n \in DOMAIN s.env |-> s2.env[n]]]
 Arms(st, v, i, s) == IF i > Len(st.arms) THEN Trap(s, "unrep", st.line)
                      ELSE LET a == st.arms[i] IN
                           IF a.v = "_" \/ a.v = v.v
                           THEN LET s1 == IF a.v = "_" THEN s
                                          ELSE [s EXCEPT !.env = [n \in {a.binds[k] : k \in 1..Len(a.binds)} |-> v.a[CHOOSE k \in 1..Len(a.binds) : a.binds[k] = n]] @@ @]
                                    s2 == ExecSeq(a.body, 1, s1)
-                               IN [s2 EXCEPT !.env = [n \in DOMAIN s.env |-> s2.env[n]]]
+                               IN IF ~Ok(s2) THEN s2 ELSE [s2 EXCEPT !.env = [n \in DOMAIN s.env |-> s2.env[n]]]
                           ELSE Arms(st, v, i + 1, s)
-Restrict(s2, s) == [s2 EXCEPT !.env = [n \in DOMAIN s.env |-> s2.env[n]]]
 Exec(st, s) ==
   IF ~Running(s) THEN s ELSE
   CASE st.k = "let" -> LET r == Eval(st.e, s) IN IF ~Ok(r.s) THEN r.s ELSE [r.s EXCEPT !.env = Bind(@, st.n, r.v)]
